@@ -3,6 +3,7 @@ package swarm
 import (
 	"context"
 	"errors"
+	"github.com/libp2p/go-libp2p/x/verifhook"
 	"sync"
 
 	"github.com/libp2p/go-libp2p/core/network"
@@ -97,6 +98,7 @@ func (ds *dialSync) Dial(ctx context.Context, p peer.ID) (*Conn, error) {
 
 	conn, err := ad.dial(ctx)
 
+	verifhook.AtArg("swarm.dialSync.afterDial", p)
 	ds.mutex.Lock()
 	defer ds.mutex.Unlock()
 
